@@ -54,7 +54,7 @@ def trim_regions(body, cd):
         if body.is_cleanup(b):
             continue
         for a, s, k in transitive_control_deps(body, b, cd=cd):
-            if k and k[0] == "field" and k[2] and k[2][-1] == "trim_parse_tree":
+            if k and k[0] == "field" and k[2] and k[2][-1].endswith("trim_parse_tree"):
                 region.setdefault(b, a)
     return region
 
@@ -69,7 +69,7 @@ def check(ctx):
             continue
         n_fn += 1
         reads = [1 for bi, kind, p, line in all_places(b)
-                 if kind == "r" and any(isinstance(e, list) and e[0] == "f" and e[2] == "trim_parse_tree" for e in p[1:])]
+                 if kind == "r" and any(isinstance(e, list) and e[0] == "f" and e[2].endswith("trim_parse_tree") for e in p[1:])]
         if not reads:
             continue
         root = b.root_fn(facts).path
